@@ -40,7 +40,7 @@ def dispatch (line : String) : String :=
     else if stream ∈ ["coord", "lookup"] then c23 stream fs
     else if stream ∈ ["pack", "alloc"] then c31 stream fs
     else if stream ∈ ["maxdepth"] then c25 stream fs
-    else if stream ∈ ["lit", "i32", "f64fix", "typrint"] then c10 stream fs
+    else if stream ∈ ["lit", "i32", "f64fix", "typrint", "typert", "i32parse"] then c10 stream fs
     else if stream ∈ ["lex", "lexlim"] then c03 stream fs
     else if stream ∈ ["parse"] then cParse stream fs
     else if stream ∈ ["strdecode", "strser"] then cStr stream fs
